@@ -189,7 +189,11 @@ func (c *checkCtx) tlc(module, cfg string, o tlcOpts) *tlcResult {
 		}
 	}
 	meta := filepath.Join(c.work, fmt.Sprintf("meta%d", seq))
-	args := []string{"-XX:+UseParallelGC", "-Xss512m", "-Dfile.encoding=UTF-8", "-Dsun.jnu.encoding=UTF-8"}
+	// (java.io.tmpdir: TLC unpacks its standard modules into a fresh directory under the temporary directory on every run and leaves
+	// it there; inside the run's work directory it goes away with it)
+	jtmp := filepath.Join(c.work, "jtmp")
+	_ = os.MkdirAll(jtmp, 0o755)
+	args := []string{"-XX:+UseParallelGC", "-Xss512m", "-Dfile.encoding=UTF-8", "-Dsun.jnu.encoding=UTF-8", "-Djava.io.tmpdir=" + jtmp}
 	if o.deque {
 		args = append(args, "-Dtlc2.tool.queue.IStateQueue=StateDeque")
 	}
